@@ -21,7 +21,7 @@ import itertools
 import numpy as np
 
 from harness import graphutil as gu
-from harness.common import Driver, Result, err_class
+from harness.common import Driver, Result, err_class, impl_guard
 
 LEVEL = "proof"
 TRUSTED_BASE = [
@@ -115,8 +115,11 @@ def check_relabel_map(res, drv, rng, count, nmax):
         if err is not None:
             viol(res, f"get_relabel_map:raises:{err}", "no relabel map reported for two isomorphic graphs", input=inp)
             continue
-        mm = {k: v for k, v in m.items() if k != -1}
-        if not gu.is_iso_map(A, B, mm):
+        try:
+            mm = {k: v for k, v in m.items() if k != -1}
+        except Exception:  # noqa: BLE001 — not a dictionary: certainly not an isomorphism
+            mm = None
+        if mm is None or not gu.is_iso_map(A, B, mm):
             viol(res, "get_relabel_map:not-an-isomorphism", "the reported relabel map must be an isomorphism between the two graphs", input=inp, impl=str(m)[:300])
             continue
         rep = drv.ask(f"graph.isomap {inp['a']} {inp['b']} map={gu.seq_str([mm[u] for u in range(n)])}")
@@ -173,12 +176,12 @@ def check_relabel_map_named(res, drv, rng, count, nmax):
         except Exception as e:  # noqa: BLE001
             viol(res, f"get_relabel_map:raises:{err_class(e)}", "no relabel map reported for two isomorphic graphs (named nodes)", input=inp)
             continue
-        mm = {k: v for k, v in m.items() if k != -1}
         idx2 = {nm: i for i, nm in enumerate(names2)}
         try:
+            mm = {k: v for k, v in m.items() if k != -1}
             mi = {i: idx2[mm[names1[i]]] for i in range(n)}
             ok = gu.is_iso_map(A, B, mi)
-        except KeyError:
+        except (KeyError, AttributeError, TypeError):  # not a dictionary / not total on the names: not an isomorphism
             ok = False
         if not ok:
             viol(res, "get_relabel_map:not-an-isomorphism", "the reported relabel map must be an isomorphism between the two graphs (node names other than 0..n-1 / scrambled insertion order)",
@@ -203,14 +206,16 @@ class RecordingRng:
         self.calls = []
         log.append(self.calls)
 
-    def choice(self, a, size=None, **k):
-        out = self.real.choice(a, size, **k)
+    # the proxies accept and forward whatever the caller passes (positional `replace` / `axis`, new keywords): a refactored call of
+    # the generator must not raise inside the recorder
+    def choice(self, a, *args, **k):
+        out = self.real.choice(a, *args, **k)
         for row in np.asarray(out).reshape(-1, np.asarray(out).shape[-1]) if np.asarray(out).ndim >= 2 else []:
             self.calls.append([int(v) for v in row])
         return out
 
-    def permutation(self, x, **k):
-        out = self.real.permutation(x, **k)
+    def permutation(self, x, *args, **k):
+        out = self.real.permutation(x, *args, **k)
         self.calls.append([int(v) for v in out])
         return out
 
@@ -297,10 +302,16 @@ def one_iso_finder(res, drv, rng, A, cfg):
             res.exact_break("graph.isofinder:error-class", input=inp, impl=f"err {err}", model=rep["_raw"][:200])
         return
     mapping = None
-    if isinstance(out, tuple):
-        out, mapping = out
-    adjs = adjs_of(out)
-    got = [gu.bits(a) for a in adjs]
+    try:
+        if isinstance(out, tuple):
+            out, mapping = out
+        adjs = adjs_of(out)
+        got = [gu.bits(a) for a in adjs]
+        if mapping is not None:
+            mapping = [dict(m) for m in mapping]
+    except Exception as e:  # noqa: BLE001 — the result is not (a list of matrices[, a list of label maps])
+        viol(res, "iso_finder:malformed-result", f"iso_finder must return adjacency matrices (and label maps when asked): {err_class(e)}", input=inp, impl=str(type(out)))
+        return
     # ---- direct oracle
     bad = None
     if len(got) > n_iso:
@@ -353,7 +364,11 @@ def one_iso_finder(res, drv, rng, A, cfg):
     if rep.get("sorted") == "1":
         from graphiq.backends.stabilizer.functions.height import height_max
 
-        hs = [height_max(graph=gu.to_graph(a)) for a in adjs]
+        try:
+            hs = [height_max(graph=gu.to_graph(a)) for a in adjs]
+        except Exception as e:  # noqa: BLE001 — height_max (property C03) on a graph: reported, not a harness crash
+            res.exact_break(f"graph.isofinder:sort_emit:height_max:raises:{err_class(e)}", input=inp, impl=repr(e)[:200], model="emitter numbers of the returned graphs")
+            return
         if hs != sorted(hs):
             res.exact_break("graph.isofinder:sort_emit", input=inp, impl=hs, model="non-decreasing emitter numbers")
             return
@@ -397,11 +412,11 @@ class NpRandomRecorder:
 
     def randint(self, *a, **k):
         v = self.real_randint(*a, **k)
-        self.draws.append(int(v))
+        self.draws.extend(int(x) for x in np.ravel(v))  # scalar or array draw: recorded value by value
         return v
 
-    def shuffle(self, x):
-        self.real_shuffle(x)
+    def shuffle(self, x, *a, **k):
+        self.real_shuffle(x, *a, **k)
         self.shuffles.append([int(v) for v in x])
 
     def __enter__(self):
@@ -427,9 +442,12 @@ class IsoSpy:
         self.cap = cap
 
     def _wrap(self, f):
-        def g(g1, g2, *a, **k):
-            r = f(g1, g2, *a, **k)
-            if len(self.obs) < self.cap:
+        def g(*a, **k):
+            # arguments are forwarded exactly as given (positional or G1= / G2= keywords)
+            r = f(*a, **k)
+            g1 = a[0] if len(a) > 0 else k.get("G1")
+            g2 = a[1] if len(a) > 1 else k.get("G2")
+            if len(self.obs) < self.cap and g1 is not None and g2 is not None:
                 self.obs.append((gu.to_adj(g1), gu.to_adj(g2), bool(r)))
             return r
 
@@ -573,10 +591,14 @@ def check_scripted(res, drv, orb, rng, quick, cache):
             jobs.append(("dfs", gu.structured_graph(rng, rng.randrange(2, 7)), True, True))
     # the scripted LC sequence itself
     for n in range(0, 15 if quick else 21):
-        seq = rm._partial_orbit(n)
-        flat = seq[-1] if seq else []
-        rep = drv.ask(f"orb.partialseq n={n}")
         res.evaluations += 1
+        try:
+            seq = rm._partial_orbit(n)
+            flat = seq[-1] if seq else []
+        except Exception as e:  # noqa: BLE001 — total in the model for every n >= 0
+            res.exact_break(f"orb.partialseq:raises:{err_class(e)}", input={"n": n}, impl=repr(e)[:200], model=drv.ask(f"orb.partialseq n={n}")["_raw"][:200])
+            continue
+        rep = drv.ask(f"orb.partialseq n={n}")
         if rep.get("seq") != gu.seq_str(flat) or [list(s) for s in seq] != [flat[: i + 1] for i in range(len(flat))]:
             res.exact_break("orb.partialseq", input={"n": n}, impl=flat, model=rep["_raw"][:200])
         else:
@@ -719,22 +741,30 @@ def run(ctx):
     cache = {}
     quick = ctx.quick
     cases = relabel_cases(rng, quick)
-    for k in range(0, len(cases), 2000):
-        check_relabel(res, drv, cases[k:k + 2000], "relabel")
-    res.notes.append("exhaustive: relabel on every graph with n<=4 vertices x every permutation (64x24 + 8x6 + 2x2 + 1 + 1 cases)")
-    check_relabel_map(res, drv, rng, 150 if quick else 1500, 8)
-    check_relabel_map_named(res, drv, rng, 120 if quick else 1200, 8)
-    check_automorph(res, drv, rng, 100 if quick else 1000, 7)
-    check_iso_finder(res, drv, rng, 220 if quick else 2500, 6 if quick else 7, 25 if quick else 250)
+    # the streams run under common.impl_guard: an exception of graphiq that no call site handles is reported, not a harness crash
+    with impl_guard(res, "relabel", promise=True):
+        for k in range(0, len(cases), 2000):
+            check_relabel(res, drv, cases[k:k + 2000], "relabel")
+        res.notes.append("exhaustive: relabel on every graph with n<=4 vertices x every permutation (64x24 + 8x6 + 2x2 + 1 + 1 cases)")
+    with impl_guard(res, "get_relabel_map", promise=True):
+        check_relabel_map(res, drv, rng, 150 if quick else 1500, 8)
+        check_relabel_map_named(res, drv, rng, 120 if quick else 1200, 8)
+    with impl_guard(res, "automorph_check", promise=True):
+        check_automorph(res, drv, rng, 100 if quick else 1000, 7)
+    with impl_guard(res, "iso_finder", promise=True):
+        check_iso_finder(res, drv, rng, 220 if quick else 2500, 6 if quick else 7, 25 if quick else 250)
     # orbit explorers: all graphs n<=4 (quick) / n<=5 (thorough), random up to 7
     small = [gu.graph_of_mask(n, m) for n in range(1, 5) for m in range(gu.n_graphs(n))]
-    check_lc_orbit(res, drv, orb, rng, small, 2 if quick else 7, cache)
-    if not quick:
-        check_lc_orbit(res, drv, orb, rng, [gu.graph_of_mask(5, m) for m in range(1024)], 2, cache)
-    check_lc_orbit(res, drv, orb, rng, [gu.structured_graph(rng, rng.randrange(5, 8)) for _ in range(40 if quick else 400)], 2, cache)
-    check_scripted(res, drv, orb, rng, quick, cache)
-    check_preprocessing(res, drv, orb, rng, 60 if quick else 600, cache)
-    res.exhaustive = True
+    with impl_guard(res, "lc_orbit_finder", promise=True):
+        check_lc_orbit(res, drv, orb, rng, small, 2 if quick else 7, cache)
+        if not quick:
+            check_lc_orbit(res, drv, orb, rng, [gu.graph_of_mask(5, m) for m in range(1024)], 2, cache)
+        check_lc_orbit(res, drv, orb, rng, [gu.structured_graph(rng, rng.randrange(5, 8)) for _ in range(40 if quick else 400)], 2, cache)
+    with impl_guard(res, "scripted-explorers", promise=True):
+        check_scripted(res, drv, orb, rng, quick, cache)
+    with impl_guard(res, "preprocessing", promise=True):
+        check_preprocessing(res, drv, orb, rng, 60 if quick else 600, cache)
+    res.exhaustive = not res.extra.get("streams_aborted")
     res.extra["driver_lines"] = drv.n_lines
     drv.close()
     return res
